@@ -462,3 +462,200 @@ Proof.
   - intro E. apply (proj2 (C14_exists kvs0 _)) in E. rewrite H3 in E. discriminate E.
   - intro E. apply (proj2 (C14_exists kvs0 _)) in E. rewrite H4 in E. discriminate E.
 Qed.
+
+(* ================================================================================================== *)
+(* added from Properties/C14_add.v (2026-10-01)                                              *)
+(* ================================================================================================== *)
+(* C14 (continued): the scope option without a side condition on the sub-dict.  The conditions plain_keys / update_stable of
+   C14_scope_read_option(_unordered) said "the clean-up after SDict.update is the identity on the sub-dict"; that follows
+   from the invariant clean_state of the unscoped read result (CleanInvariant), which is hereditary, independent of the
+   scope, and which every read without expression entries establishes.  Needs CleanInvariant in _CoqProject before it. *)
+From Coq Require Import String.   (* string literals of the examples; imported first so the list names win *)
+From Coq Require Import NArith ZArith List Bool.
+From DictIO Require Import Chars Str Value Scalar KeyPath SDict TokParser Reader Expr Eval Parse TreeSpec WorkflowProofs IncludeNested CleanInvariant CleanEval.
+Import ListNotations.
+
+Module C14_clean_ex.
+  Definition root := of_string "/r/c.dict".
+  (* the comment text "// c" twice at the top level (the second one is deleted), once in a, once in a.b (kept: the clean-up
+     works level by level); a block comment and an int key in a.b *)
+  Definition text := of_string "// c
+a { // c
+ b { z 0; // c
+ /* blk */ 7 seven; } }
+// c
+q 1;
+".
+  Definition fs : fsys := [(root, FNative text)].
+  Definition scope := [SStr (of_string "a"); SStr (of_string "b")].
+  (* the finding: an expression that copies a dict out of a list *)
+  Definition xtext := of_string "l ( { // c
+ p 1; // c
+ q 2; } );
+x $l[0];
+".
+  Definition xfs : fsys := [(root, FNative xtext)].
+  (* the same with one comment inside the list element (and the same text once more at the top level): deep *)
+  Definition dtext := of_string "l ( { // c
+ p 1; q 2; } );
+// c
+x $l[0];
+n 3;
+m $n;
+".
+  Definition dfs : fsys := [(root, FNative dtext)].
+End C14_clean_ex.
+
+(* the parser, the include merge and the read without expressions end in a clean state *)
+Theorem C14_parse_clean : forall com dir c text p, parse_string com dir c text = Ok p ->
+  clean_state (pr_sd p) = true /\ tabs_ok (pr_sd p) = true.
+Proof. exact parse_string_good. Qed.
+Print Assumptions C14_parse_clean.
+
+Theorem C14_read_plain_clean : forall fs root inc com count s c, fs_wf fs = true ->
+  read_plain fs root inc com count = Ok (s, c) -> clean_state s = true /\ tabs_ok s = true.
+Proof. exact read_plain_good. Qed.
+Print Assumptions C14_read_plain_clean.
+
+(* DictReader.read with any flags and any scope: clean, when the parsed and include-merged state sm (read_merged) is safe
+   for the expression evaluation: it holds no expression entry, or it is deep -- also the dicts INSIDE LISTS, which the
+   clean-up never visits, have pairwise different comments per level (eval_safe; the finding at the end shows why) *)
+Theorem C14_read_clean : forall fs root inc order com scope c s k, fs_wf fs = true ->
+  read_opts fs root inc order com scope c = Some (Ok (s, k)) ->
+  (forall sm km, read_merged fs root inc com c = Ok (sm, km) -> eval_safe sm = true) ->
+  clean_state s = true /\ tabs_ok s = true.
+Proof. exact read_opts_good_safe. Qed.
+Print Assumptions C14_read_clean.
+
+(* the expression evaluation keeps clean + deep *)
+Theorem C14_eval_clean : forall s s1, clean_state s = true /\ tabs_ok s = true -> deep_state s = true ->
+  eval_expressions s = Some (Ok s1) -> (clean_state s1 = true /\ tabs_ok s1 = true) /\ deep_state s1 = true.
+Proof. exact eval_expressions_good. Qed.
+Print Assumptions C14_eval_clean.
+
+Example C14_read_clean_nonvacuous :
+  exists p s k s' k',
+    parse_string true (of_string "/r") 0 C14_clean_ex.text = Ok p /\ clean_state (pr_sd p) = true /\
+    sd_lc (pr_sd p) = [(1%N, of_string "// c"); (2%N, of_string "// c"); (3%N, of_string "// c")] /\
+    fs_wf C14_clean_ex.fs = true /\
+    read_plain C14_clean_ex.fs C14_clean_ex.root true true 0 = Ok (s, k) /\ clean_state s = true /\
+    read_opts C14_clean_ex.fs C14_clean_ex.root false true true [] 0 = Some (Ok (s', k')) /\ clean_state s' = true /\
+    map fst (sd_data s') = [KS (of_string "LINECOMMENT000001"); KS (of_string "a"); KS (of_string "q")].
+Proof.
+  destruct (parse_string true (of_string "/r") 0 C14_clean_ex.text) as [p|e] eqn:E; [|vm_compute in E; discriminate E].
+  destruct (read_plain C14_clean_ex.fs C14_clean_ex.root true true 0) as [[s k]|e] eqn:E2; [|vm_compute in E2; discriminate E2].
+  destruct (read_opts C14_clean_ex.fs C14_clean_ex.root false true true [] 0) as [[[s' k']|e]|] eqn:E3;
+    [|vm_compute in E3; discriminate E3|vm_compute in E3; discriminate E3].
+  assert (F : fs_wf C14_clean_ex.fs = true) by reflexivity.
+  exists p, s, k, s', k'. split; [reflexivity|]. split; [exact (proj1 (C14_parse_clean _ _ _ _ _ E))|].
+  split; [vm_compute in E; injection E as <-; reflexivity|]. split; [exact F|]. split; [reflexivity|].
+  split; [exact (proj1 (C14_read_plain_clean _ _ _ _ _ _ _ F E2))|]. split; [reflexivity|].
+  split; [|vm_compute in E3; injection E3 as <- _; reflexivity].
+  apply (C14_read_clean _ _ _ _ _ _ _ _ _ F E3). intros sm km Em. vm_compute in Em. injection Em as <- _. reflexivity.
+Qed.
+
+(* with expressions: x receives a copy of the dict inside the list, m the value of n; the merged state is deep *)
+Example C14_read_clean_expr_nonvacuous :
+  exists sm km s k sub,
+    read_merged C14_clean_ex.dfs C14_clean_ex.root true true 0 = Ok (sm, km) /\ sd_expr sm <> [] /\ eval_safe sm = true /\
+    read_opts C14_clean_ex.dfs C14_clean_ex.root true false true [] 0 = Some (Ok (s, k)) /\ clean_state s = true /\
+    get_dpath (Dict (sd_data s)) [KS (of_string "x")] = Some (Dict sub) /\
+    map fst sub = [KS (of_string "LINECOMMENT000001"); KS (of_string "p"); KS (of_string "q")] /\
+    get_dpath (Dict (sd_data s)) [KS (of_string "m")] = Some (Leaf (SInt 3)) /\
+    read_opts C14_clean_ex.dfs C14_clean_ex.root true false true [SStr (of_string "x")] 0 =
+      Some (Ok (mkSD sub (sd_lc s) (sd_bc s) (sd_inc s) (sd_expr s), k)).
+Proof.
+  destruct (read_merged C14_clean_ex.dfs C14_clean_ex.root true true 0) as [[sm km]|e] eqn:M; [|vm_compute in M; discriminate M].
+  destruct (read_opts C14_clean_ex.dfs C14_clean_ex.root true false true [] 0) as [[[s k]|e]|] eqn:E;
+    [|vm_compute in E; discriminate E|vm_compute in E; discriminate E].
+  assert (S : eval_safe sm = true) by (vm_compute in M; injection M as <- _; vm_compute; reflexivity).
+  assert (C : clean_state s = true).
+  { apply (C14_read_clean _ _ _ _ _ _ _ _ _ (eq_refl : fs_wf C14_clean_ex.dfs = true) E).
+    intros sm' km' Em. rewrite M in Em. injection Em as <- _. exact S. }
+  pose proof (scope_read_option_clean _ _ _ _ _ [SStr (of_string "x")] _ _ _ _ _ E eq_refl ltac:(discriminate) C) as T.
+  destruct (get_dpath (Dict (sd_data s)) [KS (of_string "x")]) as [[v|sub|ts]|] eqn:P;
+    try (vm_compute in E; injection E as <- _; vm_compute in P; discriminate P).
+  exists sm, km, s, k, sub. split; [reflexivity|].
+  split; [vm_compute in M; injection M as <- _; vm_compute; discriminate|]. split; [exact S|]. split; [reflexivity|].
+  split; [exact C|]. split; [exact P|].
+  split; [vm_compute in E; injection E as <- _; vm_compute in P; injection P as <-; reflexivity|].
+  split; [vm_compute in E; injection E as <- _; vm_compute; reflexivity|exact T].
+Qed.
+
+(* any flags: when the unscoped read result is clean and the path k0 :: sk leads to a dict [sub] in it, the scoped read
+   returns precisely [sub] as data (includes off: after the top-level include-key filter), the side tables and the counter
+   of the unscoped read; otherwise the reader exits.  No condition on [sub]; condition (a) of C14_scope_read_option stays *)
+Theorem C14_scope_read_option_clean : forall fs root inc order com scope k0 sk c s k,
+  read_opts fs root inc order com [] c = Some (Ok (s, k)) -> scope_keys scope = Some (k0 :: sk) ->
+  (inc = false -> key_unmarked k0 = true) ->
+  clean_state s = true ->
+  match get_dpath (Dict (sd_data s)) (k0 :: sk) with
+  | Some (Dict sub) =>
+      read_opts fs root inc order com scope c =
+        Some (Ok (mkSD (if inc then sub else remove_include_keys sub) (sd_lc s) (sd_bc s) (sd_inc s) (sd_expr s), k))
+  | _ => read_opts fs root inc order com scope c = Some (Raise E_Exit)
+  end.
+Proof. exact scope_read_option_clean. Qed.
+Print Assumptions C14_scope_read_option_clean.
+
+(* non-vacuity: order ON (not covered by C14_scope_read_option_unordered), includes off, comments inside the sub-dict (not
+   covered by plain_keys); the cleanness of the unscoped result comes from C14_read_clean, not from a computation *)
+Example C14_scope_read_option_clean_nonvacuous :
+  exists s k sub,
+    read_opts C14_clean_ex.fs C14_clean_ex.root false true true [] 0 = Some (Ok (s, k)) /\ clean_state s = true /\
+    get_dpath (Dict (sd_data s)) [KS (of_string "a"); KS (of_string "b")] = Some (Dict sub) /\
+    map fst sub = [KI 7; KS (of_string "BLOCKCOMMENT000000"); KS (of_string "LINECOMMENT000003"); KS (of_string "z")] /\
+    plain_keys (Dict sub) = false /\
+    read_opts C14_clean_ex.fs C14_clean_ex.root false true true C14_clean_ex.scope 0 =
+      Some (Ok (mkSD (remove_include_keys sub) (sd_lc s) (sd_bc s) (sd_inc s) (sd_expr s), k)) /\
+    read_opts C14_clean_ex.fs C14_clean_ex.root false true true [SStr (of_string "q")] 0 = Some (Raise E_Exit).
+Proof.
+  destruct (read_opts C14_clean_ex.fs C14_clean_ex.root false true true [] 0) as [[[s k]|e]|] eqn:E;
+    [|vm_compute in E; discriminate E|vm_compute in E; discriminate E].
+  assert (C : clean_state s = true).
+  { apply (C14_read_clean _ _ _ _ _ _ _ _ _ (eq_refl : fs_wf C14_clean_ex.fs = true) E).
+    intros sm km Em. vm_compute in Em. injection Em as <- _. reflexivity. }
+  pose proof (C14_scope_read_option_clean _ _ _ _ _ C14_clean_ex.scope _ _ _ _ _ E eq_refl ltac:(reflexivity) C) as T.
+  pose proof (C14_scope_read_option_clean _ _ _ _ _ [SStr (of_string "q")] _ _ _ _ _ E eq_refl ltac:(reflexivity) C) as T2.
+  destruct (get_dpath (Dict (sd_data s)) [KS (of_string "a"); KS (of_string "b")]) as [[v|sub|ts]|] eqn:P;
+    try (vm_compute in E; injection E as <- _; vm_compute in P; discriminate P).
+  assert (P2 : get_dpath (Dict (sd_data s)) [KS (of_string "q")] = Some (Leaf (SInt 1)))
+    by (vm_compute in E; injection E as <- _; vm_compute; reflexivity).
+  rewrite P2 in T2.
+  exists s, k, sub. split; [reflexivity|]. split; [exact C|]. split; [exact P|].
+  split; [vm_compute in E; injection E as <- _; vm_compute in P; injection P as <-; reflexivity|].
+  split; [vm_compute in E; injection E as <- _; vm_compute in P; injection P as <-; vm_compute; reflexivity|].
+  split; [exact T|exact T2].
+Qed.
+
+(* finding (confirmed on the real library): a read result is NOT clean in general.  The clean-up does not enter lists; an
+   expression that refers to a dict inside a list copies that dict -- with its two equal comments -- to a dict level, after
+   the last clean-up of the read.  Then the scoped read (whose SDict.update cleans again) differs from the sub-dict of the
+   unscoped read: it has lost the second comment entry and its table row.  So C14_scope_read_option_clean needs its
+   hypothesis, and C14_read_clean its condition on expressions. *)
+Example C14_scope_read_option_unclean_finding :
+  exists s k sub s',
+    read_opts C14_clean_ex.xfs C14_clean_ex.root true false true [] 0 = Some (Ok (s, k)) /\ clean_state s = false /\
+    sd_clean s <> s /\
+    get_dpath (Dict (sd_data s)) [KS (of_string "x")] = Some (Dict sub) /\
+    map fst sub = [KS (of_string "LINECOMMENT000001"); KS (of_string "p"); KS (of_string "LINECOMMENT000002"); KS (of_string "q")] /\
+    sd_lc s = [(1%N, of_string "// c"); (2%N, of_string "// c")] /\
+    read_opts C14_clean_ex.xfs C14_clean_ex.root true false true [SStr (of_string "x")] 0 = Some (Ok (s', k)) /\
+    map fst (sd_data s') = [KS (of_string "LINECOMMENT000001"); KS (of_string "p"); KS (of_string "q")] /\
+    sd_lc s' = [(1%N, of_string "// c")].
+Proof.
+  destruct (read_opts C14_clean_ex.xfs C14_clean_ex.root true false true [] 0) as [[[s k]|e]|] eqn:E;
+    [|vm_compute in E; discriminate E|vm_compute in E; discriminate E].
+  destruct (read_opts C14_clean_ex.xfs C14_clean_ex.root true false true [SStr (of_string "x")] 0) as [[[s' k']|e]|] eqn:E2;
+    [|vm_compute in E2; discriminate E2|vm_compute in E2; discriminate E2].
+  destruct (get_dpath (Dict (sd_data s)) [KS (of_string "x")]) as [[v|sub|ts]|] eqn:P;
+    try (vm_compute in E; injection E as <- _; vm_compute in P; discriminate P).
+  assert (K : k' = k) by (vm_compute in E, E2; injection E as _ <-; injection E2 as _ <-; reflexivity). subst k'.
+  exists s, k, sub, s'. split; [reflexivity|].
+  split; [vm_compute in E; injection E as <- _; vm_compute; reflexivity|].
+  split; [intros H; apply (f_equal sd_lc) in H; vm_compute in E; injection E as <- _; vm_compute in H; discriminate H|].
+  split; [exact P|].
+  split; [vm_compute in E; injection E as <- _; vm_compute in P; injection P as <-; reflexivity|].
+  split; [vm_compute in E; injection E as <- _; reflexivity|]. split; [reflexivity|].
+  split; vm_compute in E2; injection E2 as <- _; reflexivity.
+Qed.
